@@ -22,6 +22,18 @@ use erltf::OwnedTerm;
 use std::convert::TryFrom;
 use std::mem;
 
+/// Unlink ids are unsigned 64-bit integers; values above `i64::MAX` do not fit
+/// the small-integer term and are carried as a big integer.
+fn unlink_id_term(id: u64) -> OwnedTerm {
+    match i64::try_from(id) {
+        Ok(small) => OwnedTerm::Integer(small),
+        Err(_) => OwnedTerm::BigInt(erltf::types::BigInt::new(
+            erltf::types::Sign::Positive,
+            id.to_le_bytes().to_vec(),
+        )),
+    }
+}
+
 /// Control message types (first element of control tuple)
 #[derive(Debug, Clone, Copy, PartialEq, Eq)]
 #[repr(u8)]
@@ -648,7 +660,7 @@ impl ControlMessage {
                 to_pid,
             } => OwnedTerm::Tuple(vec![
                 OwnedTerm::Integer(ControlMessageType::UnlinkId as i64),
-                OwnedTerm::Integer(*id as i64),
+                unlink_id_term(*id),
                 from_pid.clone(),
                 to_pid.clone(),
             ]),
@@ -659,7 +671,7 @@ impl ControlMessage {
                 to_pid,
             } => OwnedTerm::Tuple(vec![
                 OwnedTerm::Integer(ControlMessageType::UnlinkIdAck as i64),
-                OwnedTerm::Integer(*id as i64),
+                unlink_id_term(*id),
                 from_pid.clone(),
                 to_pid.clone(),
             ]),
@@ -973,7 +985,7 @@ impl ControlMessage {
                 to_pid,
             } => OwnedTerm::Tuple(vec![
                 OwnedTerm::Integer(ControlMessageType::UnlinkId as i64),
-                OwnedTerm::Integer(id as i64),
+                unlink_id_term(id),
                 from_pid,
                 to_pid,
             ]),
@@ -984,7 +996,7 @@ impl ControlMessage {
                 to_pid,
             } => OwnedTerm::Tuple(vec![
                 OwnedTerm::Integer(ControlMessageType::UnlinkIdAck as i64),
-                OwnedTerm::Integer(id as i64),
+                unlink_id_term(id),
                 from_pid,
                 to_pid,
             ]),
